@@ -305,12 +305,13 @@ pub fn run_line(line: &str) -> String {
 
 pub const VIOLATIONS: &[&str] = &["const-write", "const-compound", "const-incr", "rvalue-write", "rvalue-incr", "call-write", "literal-write", "out-rvalue", "out-const", "inout-literal", "arity-more", "arity-less",
     "arg-struct", "arg-void", "ret-struct", "ret-void-value", "ret-missing-value", "init-struct", "cond-struct", "binop-struct", "member-missing", "undeclared", "const-member-write", "const-param-write", "const-array-write",
-    "swizzle-repeat-write", "cbuffer-write", "static-const-global-write", "index-struct", "call-non-function", "ternary-mismatch", "enum-from-int", "void-var", "unknown-type"];
+    "swizzle-repeat-write", "cbuffer-write", "static-const-global-write", "out-other-scalar", "out-other-vector", "inout-other-vector", "out-wider-vector", "out-member-of-const", "out-swizzle-repeat",
+    "out-enum-for-int", "index-struct", "call-non-function", "ternary-mismatch", "enum-from-int", "void-var", "unknown-type"];
 
 /// Append to the program a function that is well-typed except for one violation.
 fn inject(base: &str, kind: &str, seed: u64) -> Option<String> {
     let u = seed % 1000;
-    let pre = format!("struct ZS{u} {{ int a; float2 b; }};\nenum ZE{u} {{ ZA{u}, ZB{u} }};\nvoid zout{u}(out int o, inout float io, int i) {{ o = i; io += 1.0; }}\nint zone{u}(int a) {{ return a; }}\ncbuffer ZCB{u} {{ int zc{u}; }}\nstatic const int zk{u} = 4;\n");
+    let pre = format!("void zov{u}(out float3 o) {{ o = float3(1, 2, 3); }}\nvoid ziov{u}(inout int2 o) {{ o += int2(1, 1); }}\nvoid zof{u}(out float o) {{ o = 1.0; }}\nvoid zoi{u}(out int o) {{ o = 1; }}\nstruct ZS{u} {{ int a; float2 b; }};\nenum ZE{u} {{ ZA{u}, ZB{u} }};\nvoid zout{u}(out int o, inout float io, int i) {{ o = i; io += 1.0; }}\nint zone{u}(int a) {{ return a; }}\ncbuffer ZCB{u} {{ int zc{u}; }}\nstatic const int zk{u} = 4;\n");
     let body = match kind {
         "const-write" => "const int c = 1; c = 2;".to_string(),
         "const-compound" => "const float c = 1.0; c *= 2.0;".to_string(),
@@ -340,6 +341,13 @@ fn inject(base: &str, kind: &str, seed: u64) -> Option<String> {
         "swizzle-repeat-write" => "float2 v = float2(1, 2); v.xx = float2(3, 4);".to_string(),
         "cbuffer-write" => format!("zc{u} = 3;"),
         "static-const-global-write" => format!("zk{u} = 5;"),
+        "out-other-scalar" => format!("int a = 1; zof{u}(a);"),
+        "out-other-vector" => format!("int3 v = int3(0, 0, 0); zov{u}(v);"),
+        "inout-other-vector" => format!("uint2 v = uint2(0, 0); ziov{u}(v);"),
+        "out-wider-vector" => format!("float4 v = float4(0, 0, 0, 0); zov{u}(v);"),
+        "out-member-of-const" => format!("const ZS{u} s = (ZS{u})0; zoi{u}(s.a);"),
+        "out-swizzle-repeat" => format!("float2 v = float2(0, 0); zov{u}(v.xxy);"),
+        "out-enum-for-int" => format!("ZE{u} e = ZA{u}; zoi{u}(e);"),
         "index-struct" => format!("ZS{u} s; s.a = 1; int arr[2] = {{ 1, 2 }}; int a = arr[s];"),
         "call-non-function" => "int a = 1; int b = a(2);".to_string(),
         "ternary-mismatch" => format!("ZS{u} s; s.a = 1; int a = true ? s : 1;"),
